@@ -15,6 +15,13 @@ Streams
          Expected wire bytes = the model's `send` applied sequentially with the counter threaded through; oracle:
          the strict reference accessory decrypts the concatenation of everything written to the concatenated
          requests (a frame sealed under an already used counter is reported as `send:pipelined-nonce-reuse`).
+  sess   ONE live protocol object, everything interleaved: EVENT messages and responses spread over several
+         frames and reads, requests issued at arbitrary read boundaries (in particular while a message is only
+         partly received; exhaustively: an event split at every byte with a request between its two reads),
+         cancellation of an in-flight request, pause_writing()/resume_writing() from the transport around
+         requests.  Model: Frame.v `sess_step` (theorems session_inbound_independent /
+         session_outbound_sequential); oracle: the strict reference accessory must decrypt everything written,
+         every live un-cancelled request must have been emitted, events / responses must be exactly those sent.
   recv   the reference accessory seals plaintext frames; optional single-bit flip in a length
          prefix / ciphertext / tag (or truncation, replay, reordering); the stream is cut into
          reads (every single and double cut of small streams, random multi-cut of large ones).
@@ -751,12 +758,470 @@ async def impl_event(c):
     return got, want, link.ended, rx.dead, len(frames)
 
 
+# ---------------------------------------------------------------- session stream (one live protocol, everything interleaved)
+# Script ops:  ("S", i)  start request i as a task      ("R", bytes)  one network read
+#              ("C", i)  cancel request i (caller side timeout / cancellation) while it is in flight
+#              ("P",)    transport.pause_writing() reached the protocol        ("U",)  resume_writing()
+# The accessory's plaintext stream = EVENT messages and the responses to the *answered* requests, in order,
+# cut into frames of arbitrary sizes, sealed, cut into reads.  A response is never read before its request was
+# sent; apart from that requests are issued at arbitrary read boundaries - in particular while an event or a
+# response is only partly received.  Requests that get cancelled are never answered.
+SESS_FRAME = [1, 2, 5, 17, 40, 100, 300, 1024, 1024]
+
+
+def build_session(r, msgs, reqs, frame_sizes, cuts, rx0=0, tx0=0, flip=None, send_at=None):
+    """msgs: [("E", body) | ("A", req index, body)]; reqs: payload per answered request.
+    -> case dict with ops = reads and sends merged (flow-control / cancel ops are added by the caller)"""
+    a2c, c2a = key_of(r), key_of(r)
+    plain, spans = b"", []
+    for m in msgs:
+        data = http_event(m[1]) if m[0] == "E" else http_response(m[2])
+        spans.append((m[0], m[1] if m[0] == "A" else None, len(plain), len(plain) + len(data)))
+        plain += data
+    frames, o, k = [], 0, 0
+    while o < len(plain):
+        n = frame_sizes[k] if k < len(frame_sizes) else r.choice(SESS_FRAME + [r.randrange(1, 1025)])
+        frames.append(plain[o:o + n])
+        o += n
+        k += 1
+    stream, table = build_recv(a2c, rx0, frames)
+    fstart, po, so = [], 0, 0                       # (plain offset, stream offset) of every frame start
+    for f in frames:
+        fstart.append((po, so))
+        po += len(f)
+        so += 2 + len(f) + 16
+    if flip is not None:
+        b = bytearray(stream)
+        b[flip[0] % len(b)] ^= 1 << flip[1]
+        stream = bytes(b)
+    cuts = sorted({c for c in cuts if 0 < c < len(stream)})
+    reads = cut(stream, cuts)
+    bounds = [0] + cuts                              # stream offset at which read j starts
+    # request i must be on the wire before the read that brings the first byte of the frame carrying the start of its response
+    latest = {}
+    for kind, ri, a, b in spans:
+        if kind == "A":
+            fs = max(x for x in fstart if x[0] <= a)[1]
+            latest[ri] = max(j for j, st in enumerate(bounds) if st <= fs)
+    pos, lo = {}, 0
+    for i in range(len(reqs)):
+        hi = latest[i]
+        lo = min(lo, hi)
+        pos[i] = send_at[i] if send_at else r.randrange(lo, hi + 1)
+        lo = pos[i]
+    ops = []
+    for j, rd in enumerate(reads):
+        for i in range(len(reqs)):
+            if pos[i] == j:
+                ops.append(("S", i))
+        ops.append(("R", rd))
+    return dict(a2c_key=a2c, c2a_key=c2a, rx0=rx0, tx0=tx0, msgs=msgs, spans=spans, plain=plain, frames=frames,
+                stream=stream, table=table, reqs=list(reqs), ops=ops, answered=len(reqs), corrupted=flip is not None,
+                resp_read=latest)
+
+
+def add_extra_request(r, c, payload, cancel, pause, resume_later):
+    """inserts [P] S(x) [C(x)] [U] at a random place; x is never answered by the accessory"""
+    x = len(c["reqs"])
+    c["reqs"].append(payload)
+    at = r.randrange(len(c["ops"]) + 1)
+    blk = ([("P",)] if pause else []) + [("S", x)] + ([("C", x)] if cancel else [])
+    if pause and not resume_later:
+        blk.append(("U",))
+    c["ops"][at:at] = blk
+    if pause and resume_later:
+        c["ops"].insert(r.randrange(at + len(blk), len(c["ops"]) + 1), ("U",))
+
+
+def gen_session(tier, r):
+    quick = tier == "quick"
+    cases = []
+    # exhaustive: an event spread over two frames at EVERY split point, one read per frame, a request sent between the
+    # two reads (and, as control, before / after both), answered afterwards
+    ev = http_event(b'{"characteristics":[{"aid":1,"iid":10,"value":true}]}')
+    for n in range(1, len(ev)):
+        for where in ((0, 1, 2) if (not quick or n % 3 == 0) else (1,)):
+            msgs = [("E", ev.split(b"\r\n\r\n", 1)[1]), ("A", 0, rbytes(r, 20))]
+            total = len(ev) + len(http_response(msgs[1][2]))
+            c = build_session(r, msgs, [rbytes(r, r.choice([1, 60, 1025]))], [n, len(ev) - n, 1024],
+                              [2 + n + 16, 2 + n + 16 + 2 + (len(ev) - n) + 16], send_at=[where])
+            c["style"] = "event-split/send@%d" % where
+            cases.append(c)
+    # random duplex sessions
+    for _ in range(500 if quick else 8000):
+        nreq = r.choice([0, 1, 1, 2, 3])
+        msgs, k = [], 0
+        for _ in range(r.choice([1, 2, 3]) + nreq):
+            if k < nreq and r.random() < 0.5:
+                msgs.append(("A", k, rbytes(r, r.choice([0, 1, 30, 1000, 1500]))))
+                k += 1
+            else:
+                msgs.append(("E", rbytes(r, r.choice([1, 30, 200, 1100, 2500]))))
+        while k < nreq:
+            msgs.append(("A", k, rbytes(r, r.choice([0, 1, 30, 1000]))))
+            k += 1
+        reqs = [rbytes(r, r.choice([1, 2, 100, 1023, 1024, 1025, 2049])) for _ in range(nreq)]
+        approx = sum(len(m[-1]) + 90 for m in msgs)
+        ncut = r.choice([1, 2, 4, 8, 16])
+        flip = (r.randrange(1 << 30), r.randrange(8)) if r.random() < 0.15 else None
+        c = build_session(r, msgs, reqs, [], [r.randrange(1, approx * 2) for _ in range(ncut)] , flip=flip,
+                          rx0=r.choice([0, 0, 7, (1 << 32) - 1]), tx0=r.choice([0, 0, 3, (1 << 32) - 1]))
+        # add reads boundaries exactly between frames now and then (re-cut at frame ends)
+        c["style"] = "duplex"
+        m = r.random()
+        if m < 0.30:
+            # flow control + caller side timeout: the transport pauses writing, a request is issued and cancelled
+            # (never answered), writing resumes at once or later
+            add_extra_request(r, c, rbytes(r, r.choice([1, 100, 1024, 1025])), cancel=True, pause=r.random() < 0.8,
+                              resume_later=r.random() < 0.5)
+            c["style"] = "flow+cancel"
+        elif m < 0.45 and nreq:
+            # flow control around an answered request: P just before it, U right after it or later
+            i = r.randrange(nreq)
+            at = c["ops"].index(("S", i))
+            c["ops"].insert(at, ("P",))
+            # writing resumes before the read that brings the answer (the accessory cannot answer what it has not received)
+            nr, lim = 0, len(c["ops"])
+            for k, op in enumerate(c["ops"]):
+                if op[0] == "R":
+                    if nr == c["resp_read"][i]:
+                        lim = k
+                        break
+                    nr += 1
+            c["ops"].insert(at + 2 if r.random() < 0.5 else r.randrange(at + 2, max(at + 2, lim) + 1), ("U",))
+            c["style"] = "flow"
+        elif m < 0.55:
+            at = r.randrange(len(c["ops"]) + 1)
+            c["ops"][at:at] = [("P",)]
+            c["ops"].insert(r.randrange(at + 1, len(c["ops"]) + 1), ("U",))
+            c["style"] = "duplex+pause"
+        if r.random() < 0.5:               # one more request at the very end of the script (its answer is not part of the script)
+            c["reqs"].append(rbytes(r, r.choice([1, 100, 1025])))
+            c["ops"].append(("S", len(c["reqs"]) - 1))
+        cases.append(c)
+    return cases
+
+
+def sess_line(c):
+    ents = [f"{hx(n)}:{hx(a)}:{hx(ct)}:{hx(pt)}" for n, a, ct, pt in c["table"]]
+    toks = []
+    for op in c["ops"]:
+        if op[0] == "S":
+            toks.append("S:" + hx(c["reqs"][op[1]]))
+        elif op[0] == "R":
+            toks.append("R:" + hx(op[1]))
+        else:
+            toks.append(op[0])
+    return "sess %d %d %d %s %s" % (c["rx0"], c["tx0"], len(ents), " ".join(ents), " ".join(toks))
+
+
+async def spin(n=3):
+    for _ in range(n):
+        await asyncio.sleep(0)
+
+
+async def impl_session(c):
+    from aiohomekit.exceptions import AccessoryDisconnectedError
+    proto, link, conn, _ = make_proto(c["a2c_key"], c["c2a_key"], c["rx0"], c["tx0"])
+    tasks, trace, paused = {}, [], False
+    for op in c["ops"]:
+        tok = op[0]
+        if op[0] == "S":
+            t = asyncio.ensure_future(proto.send_bytes(c["reqs"][op[1]]))
+            tasks[op[1]] = t
+            await spin(2)
+            if t.done() and not t.cancelled() and t.exception() is not None:
+                e = t.exception()
+                tok = "r" if isinstance(e, AccessoryDisconnectedError) else ("x" if isinstance(e, struct.error) else "o:" + type(e).__name__)
+            else:
+                tok = "w"
+        elif op[0] == "R":
+            link.deliver(op[1])
+            await spin(1)
+            tok = "d"
+        elif op[0] == "C":
+            t = tasks.get(op[1])
+            if t is not None and not t.done():
+                t.cancel()
+            await spin(3)
+            tok = "c"
+        elif op[0] == "P":
+            paused = True
+            proto.pause_writing()
+        elif op[0] == "U":
+            paused = False
+            proto.resume_writing()
+            await spin(4)
+        done = sorted(i for i, t in tasks.items() if t.done() and not t.cancelled() and t.exception() is None)
+        trace.append(dict(tok=tok, paused=paused, written=b"".join(link.writes), ended=link.ended,
+                          events=len(conn.events), responses=len([i for i in done if i < c["answered"]])))
+    await spin(4)
+    final = dict(written=b"".join(link.writes), ended=link.ended, end=link.end_mode,
+                 events=[bytes(e.body) for e in conn.events], responses={}, status={})
+    for i, t in tasks.items():
+        if not t.done():
+            final["status"][i] = "pending"
+            t.cancel()
+            try:
+                await t
+            except BaseException:  # noqa
+                pass
+        elif t.cancelled():
+            final["status"][i] = "cancelled"
+        elif t.exception() is not None:
+            final["status"][i] = "exc:" + type(t.exception()).__name__
+        else:
+            final["status"][i] = "ok"
+            final["responses"][i] = bytes(t.result().body)
+    return trace, final
+
+
+def model_session(c, ans):
+    """driver answer -> per op expectation in the implementation's terms"""
+    out, written, plain, dead = [], b"", 0, False
+    for tokm in ans.split(" "):
+        kind = tokm[0]
+        if kind == "w":
+            body = tokm[2:]
+            if body != ".":
+                for f in body.split(","):
+                    prefix, nonce, ctr, aad, chunk = f.split(":")
+                    written += unhx(prefix) + ref.seal(c["c2a_key"], unhx(nonce), unhx(aad), unhx(chunk))
+        elif kind == "d":
+            _, st, pts = tokm.split("/")
+            dead = dead or st == "D"
+            if pts != ".":
+                plain += sum(len(unhx(x)) for x in pts.split(","))
+        elif kind == "c":
+            dead = True
+        ev = len([1 for k, ri, a, b in c["spans"] if k == "E" and b <= plain])
+        rs = len([1 for k, ri, a, b in c["spans"] if k == "A" and b <= plain])
+        out.append(dict(tok={"n": None}.get(kind, kind), written=written, ended=dead, events=ev, responses=rs, plain=plain))
+    return out
+
+
+def oracle_session(c, trace, final):
+    """property level, independent of the model: (a) everything written, in order, must be decryptable by the strict
+    reference accessory from the session's counter, to the requests that were emitted; a request that was neither
+    cancelled nor refused on a live session must have been emitted; (b) what the reference receiver authenticates of the
+    reads that reached a live session must arrive as exactly the events / responses the accessory sent."""
+    # ---- (a)
+    rx = ref.RefReceiver(c["c2a_key"], c["tx0"], max_frame=1024)
+    rx.feed(final["written"])
+    cancelled = {op[1] for op in c["ops"] if op[0] == "C"}
+    issued = [op[1] for op in c["ops"] if op[0] == "S"]
+    if rx.dead and rx.why == "auth":
+        hdr, body = rx.bad_frame
+        for old in range(c["tx0"], rx.ctr):
+            if ref.open_(c["c2a_key"], ref.nonce(old), hdr, body) is not None:
+                return ("send:session-nonce-reuse", f"frame {len(rx.delivered)} on the wire is sealed with counter {old}, already used")
+        for new in range(rx.ctr + 1, rx.ctr + 40):
+            if ref.open_(c["c2a_key"], ref.nonce(new), hdr, body) is not None:
+                unsent = [i for i in issued if final["status"].get(i) in ("cancelled", "pending")]
+                return ("send:counter-skipped-after-unsent-request",
+                        f"the session is {'still open' if not final['ended'] else 'closed'}; frame {len(rx.delivered)} on the wire is sealed "
+                        f"with counter {new} but the accessory has only seen {rx.ctr - c['tx0']} frames (expects {rx.ctr}): request(s) "
+                        f"{unsent} consumed counters without reaching the transport, later requests cannot be decrypted")
+        return ("send:session-not-authentic", f"reference accessory fails to authenticate frame {len(rx.delivered)} on the wire")
+    if rx.dead:
+        return ("send:session-" + rx.why, "reference accessory rejects the written stream")
+    got = b"".join(rx.delivered)
+    o, emitted = 0, set()
+    for i in issued:
+        p = c["reqs"][i]
+        if got[o:o + len(p)] == p:
+            emitted.add(i)
+            o += len(p)
+    if o != len(got) or rx.buf:
+        return ("send:session-wrong-plaintext", f"the wire decrypts to {len(got)} bytes that are not a sequence of the issued requests")
+    if not final["ended"]:
+        for i in issued:
+            if i not in emitted and i not in cancelled and final["status"].get(i) in ("ok", "pending"):
+                return ("send:request-never-emitted", f"request {i} was neither cancelled nor refused, the session is open, yet it never reached the wire")
+    # ---- (b) reads that reached the session before a cancellation closed it
+    upto = len(c["ops"])
+    for k, op in enumerate(c["ops"]):
+        if op[0] == "C" and op[1] in emitted:
+            upto = k
+            break
+    data = b"".join(op[1] for op in c["ops"][:upto] if op[0] == "R")
+    rr = ref.RefReceiver(c["a2c_key"], c["rx0"])
+    rr.feed(data)
+    n = len(b"".join(rr.delivered))
+    want_ev = [c["msgs"][j][1] for j, (k, ri, a, b) in enumerate(c["spans"]) if k == "E" and b <= n]
+    if final["events"] != want_ev:
+        return ("recv:session-events-differ",
+                f"events delivered {[len(x) for x in final['events']]} != events the accessory sent in the authentic part of the "
+                f"stream {[len(x) for x in want_ev]} (requests were issued between the reads; session end: {final['end']})")
+    for j, (k, ri, a, b) in enumerate(c["spans"]):
+        if k == "A" and b <= n and ri not in cancelled:
+            if final["responses"].get(ri) != c["msgs"][j][2]:
+                return ("recv:session-response-differs",
+                        f"request {ri}: response of {len(c['msgs'][j][2])} bytes lies in the authentic part of the stream but the request "
+                        f"future ended as {final['status'].get(ri)} / {len(final['responses'].get(ri, b''))} bytes")
+    closed_by_cancel = upto < len(c["ops"])
+    if not rr.dead and not closed_by_cancel and final["ended"]:
+        return ("recv:session-ended-without-cause", f"no authentication failure, no cancellation, yet the session ended ({final['end']})")
+    if rr.dead and not final["ended"]:
+        return ("recv:auth-failure-session-not-ended", "a frame failed authentication but the session goes on")
+    return None
+
+
+# ---------------------------------------------------------------- kernel cross-check of the extracted driver
+VM_PRELUDE = r"""From Coq Require Import List NArith Bool.
+From AHK Require Import Lib.Res Lib.ByteStr Model.Frame.
+Import ListNotations.
+(* results are flattened to one [list N]; every byte string is preceded by its length *)
+Definition show_bs (b : bytes) : list N := N.of_nat (length b) :: b.
+Definition show_f (f : sframe) : list N :=
+  show_bs (sf_prefix f) ++ show_bs (sf_nonce f) ++ [sf_ctr f] ++ show_bs (sf_aad f) ++ show_bs (sf_chunk f).
+(* driver command "sends": ip_send folded over the payloads, counter threaded, stops at the first non-Ok *)
+Fixpoint sends (ctr : N) (ps : list bytes) : list N :=
+  match ps with
+  | [] => []
+  | p :: r =>
+      match ip_send ctr p with
+      | Ok (fs, c') => [0%N; c'; N.of_nat (length fs)] ++ concat (map show_f fs) ++ sends c' r
+      | Crash => [1%N]
+      | Err _ => [2%N]
+      | OutOfFuel => [3%N]
+      end
+  end.
+(* driver command "feed": open = the finite table (a later entry replaces an earlier one with the same key) *)
+Fixpoint lookup (tbl : list (bytes * bytes * bytes * bytes)) (no aad ct : bytes) : option bytes :=
+  match tbl with
+  | [] => None
+  | (n, a, c, p) :: r =>
+      match lookup r no aad ct with
+      | Some x => Some x
+      | None => if beq_bytes n no && beq_bytes a aad && beq_bytes c ct then Some p else None
+      end
+  end.
+Definition show_st (s : rstate) : list N :=
+  match s with Dead => [1%N] | Live b c => [0%N] ++ show_bs b ++ [c] end.
+Fixpoint feeds (opn : bytes -> bytes -> bytes -> option bytes) (st : rstate) (segs : list bytes) : list N :=
+  match segs with
+  | [] => show_st st
+  | d :: r =>
+      let so := ip_feed opn st d in
+      [match fst so with Dead => 1%N | Live _ _ => 0%N end; N.of_nat (length (snd so))]
+        ++ concat (map show_bs (snd so)) ++ feeds opn (fst so) r
+  end.
+"""
+
+
+def coq_bytes(b):
+    return "[" + "; ".join(f"{x}%N" for x in bytes(b)) + "]"
+
+
+def coq_request(line):
+    """one driver request line -> the Gallina term the driver evaluates for it (parsed the way ocaml/drv_c05.ml does)"""
+    w = line.split()
+    if w[0] == "sends":
+        return "sends %s%%N [%s]" % (w[1], "; ".join(coq_bytes(unhx(p)) for p in w[2:]))
+    if w[0] == "feed":
+        n = int(w[3])
+        ents, segs = w[4:4 + n], w[4 + n:]
+        tbl = "; ".join("(%s, %s, %s, %s)" % tuple(coq_bytes(unhx(x)) for x in e.split(":")) for e in ents)
+        return "feeds (lookup [%s]) (Live %s %s%%N) [%s]" % (tbl, coq_bytes(unhx(w[2])), w[1],
+                                                             "; ".join(coq_bytes(unhx(s)) for s in segs))
+    raise ValueError("unknown request kind " + w[0])
+
+
+def flat_answer(line, ans):
+    """the driver's answer line -> the flat number list `sends` / `feeds` above produce; None = unparseable answer"""
+    def bs(h):
+        b = unhx(h)
+        return [len(b)] + list(b)
+    try:
+        out = []
+        if line.startswith("sends"):
+            for part in (ans.split(" | ") if ans else []):
+                t = part.split(" ")
+                if t[0] != "ok":
+                    out += [{"crash": 1, "err": 2, "fuel": 3}[t[0]]]
+                    continue
+                out += [0, int(t[1]), len(t) - 2]
+                for tok in t[2:]:
+                    prefix, nonce, ctr, aad, chunk = tok.split(":")
+                    out += bs(prefix) + bs(nonce) + [int(ctr)] + bs(aad) + bs(chunk)
+            return out
+        t = ans.split(" ")
+        for tok in t[:-1]:
+            st, o = tok.split("/")
+            pts = [] if o == "." else o.split(",")
+            out += [{"L": 0, "D": 1}[st], len(pts)]
+            for p in pts:
+                out += bs(p)
+        if t[-1] == "dead":
+            return out + [1]
+        tag, buf, ctr = t[-1].split(":")
+        if tag != "live":
+            return None
+        return out + [0] + bs(buf) + [int(ctr)]
+    except (ValueError, KeyError, IndexError):
+        return None
+
+
+def vm_crosscheck(ctx, sample):
+    """sample: (request line, driver answer) pairs from this run's request stream.  The same requests are evaluated
+    inside Coq (`Eval vm_compute`, one per request, one generated file) with the model functions the driver calls
+    (ip_send / ip_feed) and the complete structured answers are compared.  Takes extraction + ocaml/drv.ml +
+    ocaml/drv_c05.ml out of the single-point-of-trust position.  -> (requests, [(line, coq, driver), ...])"""
+    import re
+    from common import coq_eval
+    body = [VM_PRELUDE] + ["Eval vm_compute in (%s)." % coq_request(line) for line, _ in sample]
+    out = coq_eval(ctx["verif"], "C05", "crosscheck", "\n".join(body) + "\n", timeout=120)
+    blocks = re.split(r"^\s*= ", out, flags=re.M)[1:]
+    bad = []
+    for i, (line, ans) in enumerate(sample):
+        got = [int(x) for x in re.findall(r"\d+", blocks[i].rsplit(":", 1)[0])] if i < len(blocks) else None
+        want = flat_answer(line, ans)
+        if got is None or want is None or got != want:
+            bad.append((line, got, ans))
+    return len(sample), bad
+
+
+def vm_sample(send_lines, send_model, pipe_lines, pipe_model, recv_lines, recv_cases, recv_model):
+    """deterministic sample of the real request stream: both request kinds (sends: single-request sessions, crash at
+    2^64, pipelined sessions; feed: every generator style, clean and corrupted), small inputs only"""
+    def spread(idx, k):
+        if len(idx) <= k:
+            return list(idx)
+        return [idx[(j * (len(idx) - 1)) // (k - 1)] for j in range(k)] if k > 1 else [idx[0]]
+
+    def small(line):        # hex digits / 2 bounds the number of list elements of the Gallina literal
+        return len(line) <= 800
+
+    def medium(line):       # admits one 1025-byte request (two frames); elaborating such literals costs ~0.3 s each
+        return 800 < len(line) <= 2200
+    picks = []
+    s_small = [i for i, l in enumerate(send_lines) if small(l)]
+    s_crash = [i for i in s_small if "crash" in send_model[i]]
+    s_multi = [i for i in s_small if " | " in send_model[i] and "crash" not in send_model[i]]
+    s_two = [i for i, l in enumerate(send_lines) if medium(l)
+             and any(len(p.split(" ")) > 3 for p in send_model[i].split(" | "))]       # a request cut into >= 2 frames
+    chosen = spread(s_small, 4) + spread(s_crash, 2) + spread(s_multi, 2) + spread(s_two, 3)
+    picks += [(send_lines[i], send_model[i]) for i in sorted(set(chosen))]
+    p_small = [i for i, l in enumerate(pipe_lines) if small(l)]
+    p_med = [i for i, l in enumerate(pipe_lines) if medium(l)]
+    picks += [(pipe_lines[i], pipe_model[i]) for i in spread(p_small, 2) + spread(p_med, 2)]
+    by_style = {}
+    for i, (l, c) in enumerate(zip(recv_lines, recv_cases)):
+        if small(l) or (medium(l) and c["style"] == "random"):
+            by_style.setdefault((c["style"], c["mut"] != "none"), []).append(i)
+    for key in sorted(by_style):
+        picks += [(recv_lines[i], recv_model[i]) for i in spread(by_style[key], 2)]
+    return picks[:30]
+
+
 # ---------------------------------------------------------------- run
 def run(ctx):
     tier, seed = ctx["tier"], ctx["seed"]
     drv = Driver(ctx["driver"])
     cov = Coverage("send: distinct (start counter, payload lengths) session with >= 1 non-empty payload; "
                    "pipelined-send: distinct (start counter, payload lengths, schedule) with >= 2 requests in flight; "
+                   "session: distinct script of requests / reads / cancel / pause / resume on one protocol object; "
                    "recv: distinct (frame sizes, corruption, read boundaries) with >= 1 complete frame or a corruption; "
                    "event: distinct body-length lists")
     viols = []
@@ -772,24 +1237,30 @@ def run(ctx):
     FakeConnection.UNKNOWN.clear()
     event_cases = gen_event(tier, rng(seed, "c05event"))
     pipe_cases = gen_pipe(tier, rng(seed, "c05pipe"))
+    sess_cases = gen_session(tier, rng(seed, "c05sess"))
 
-    send_model = drv.batch(["sends %d %s" % (c["ctr"], " ".join(hx(p) for p in c["payloads"])) for c in send_cases])
-    recv_model = drv.batch([recv_line(c) for c in recv_cases])
-    pipe_model = drv.batch(["sends %d %s" % (c["ctr"], " ".join(hx(p) for p in c["payloads"])) for c in pipe_cases])
+    send_lines = ["sends %d %s" % (c["ctr"], " ".join(hx(p) for p in c["payloads"])) for c in send_cases]
+    recv_lines = [recv_line(c) for c in recv_cases]
+    pipe_lines = ["sends %d %s" % (c["ctr"], " ".join(hx(p) for p in c["payloads"])) for c in pipe_cases]
+    send_model = drv.batch(send_lines)
+    recv_model = drv.batch(recv_lines)
+    pipe_model = drv.batch(pipe_lines)
+    sess_model = drv.batch([sess_line(c) for c in sess_cases])
 
     async def all_impl():
         s = [await impl_send_session(c) for c in send_cases]
         rv = [await impl_recv(c) for c in recv_cases]
         ev = [await impl_event(c) for c in event_cases]
         pp = [await impl_pipe(c) for c in pipe_cases]
-        return s, rv, ev, pp
+        ss = [await impl_session(c) for c in sess_cases]
+        return s, rv, ev, pp, ss
 
     loop = asyncio.new_event_loop()
     loop.set_exception_handler(lambda l, c: None)
     prev_disable = logging.root.manager.disable
     logging.disable(logging.CRITICAL)      # the code under test may log per corrupted frame
     try:
-        send_impl, recv_impl, event_impl, pipe_impl = loop.run_until_complete(all_impl())
+        send_impl, recv_impl, event_impl, pipe_impl, sess_impl = loop.run_until_complete(all_impl())
     finally:
         logging.disable(prev_disable)
         loop.close()
@@ -866,6 +1337,44 @@ def run(ctx):
                  pipe_requests=len(c["lens"]),
                  pipe_schedule=c["schedule"])
 
+    # ---- session: requests, reads, cancellation and flow-control callbacks interleaved on one live protocol
+    for ci, (c, m_ans, (trace, final)) in enumerate(zip(sess_cases, sess_model, sess_impl)):
+        mexp = model_session(c, m_ans)
+
+        def show(op):
+            return ("S%d:%d" % (op[1], len(c["reqs"][op[1]]))) if op[0] == "S" else ("R:%d" % len(op[1])) if op[0] == "R" else \
+                   ("C%d" % op[1]) if op[0] == "C" else op[0]
+        small = len(c["stream"]) <= 600
+        rep = dict(stream="session", style=c["style"], a2c_key=hx(c["a2c_key"]), c2a_key=hx(c["c2a_key"]),
+                   a2c_counter=c["rx0"], c2a_counter=c["tx0"], script=[show(op) for op in c["ops"]],
+                   requests=[hx(p)[:200] for p in c["reqs"]], answered_requests=c["answered"],
+                   accessory_messages=[(m[0], len(m[-1])) for m in c["msgs"]], frame_sizes=[len(f) for f in c["frames"]],
+                   reads=[hx(op[1]) for op in c["ops"] if op[0] == "R"] if small else [len(op[1]) for op in c["ops"] if op[0] == "R"],
+                   corrupted=c["corrupted"], impl_final=dict(ended=final["ended"], end=final["end"], status=final["status"],
+                                                             events=[len(e) for e in final["events"]], written=len(final["written"])),
+                   impl_trace=[(t["tok"], len(t["written"]), t["ended"], t["events"], t["responses"]) for t in trace][:40],
+                   model_trace=[(t["tok"], len(t["written"]), t["ended"], t["events"], t["responses"]) for t in mexp][:40])
+        orc = oracle_session(c, trace, final)
+        if orc is not None:
+            report(orc[0], f"session ({c['style']}, script {' '.join(rep['script'])[:160]}): {orc[1]}", True, **rep)
+        else:
+            for k, (ti, tm) in enumerate(zip(trace, mexp)):
+                if ti["paused"]:
+                    continue                       # a flow-controlled writer may legitimately hold data back while paused
+                same = (ti["written"] == tm["written"] and ti["ended"] == tm["ended"] and ti["events"] == tm["events"]
+                        and ti["responses"] == tm["responses"] and (tm["tok"] is None or ti["tok"] == tm["tok"]))
+                if not same:
+                    report("session:model-mismatch", f"after op {k} ({rep['script'][k]}) of {c['style']} session: implementation "
+                           f"{(ti['tok'], len(ti['written']), ti['ended'], ti['events'], ti['responses'])} != model "
+                           f"{(tm['tok'], len(tm['written']), tm['ended'], tm['events'], tm['responses'])}", False,
+                           broken="correspondence Model/Frame.v sess_step <-> SecureHomeKitProtocol on one live object", **rep)
+                    break
+        cov.case("x" + repr(rep["script"]) + hx(c["stream"][:32]), True,
+                 sample=dict(stream="session", style=c["style"], script=rep["script"][:14], frames=rep["frame_sizes"][:8],
+                             events=len(final["events"]), ended=final["end"]) if ci % 97 == 0 else None,
+                 sess_style=c["style"].split("/")[0], sess_end=final["end"], sess_requests=len(c["reqs"]),
+                 sess_send_mid_message=any(t["tok"] == "w" and any(a < t["plain"] < b for _, _, a, b in c["spans"]) for t in mexp))
+
     # ---- recv
     for ci, (c, m_ans, (toks, info)) in enumerate(zip(recv_cases, recv_model, recv_impl)):
         m_toks, m_fin = model_recv_canon(m_ans)
@@ -904,15 +1413,32 @@ def run(ctx):
                f"the protocol accessed connection attribute(s) {sorted(FakeConnection.UNKNOWN)} that harness/c05.py::FakeConnection "
                f"does not provide; the resulting AttributeError may have been mistaken for a session teardown", False,
                attributes=sorted(FakeConnection.UNKNOWN))
+    if not ctx.get("replay"):
+        vm_pairs = vm_sample(send_lines, send_model, pipe_lines, pipe_model, recv_lines, recv_cases, recv_model)
+        n_vm, bad_vm = vm_crosscheck(ctx, vm_pairs)
+        cov.extra["vm_compute_crosscheck"] = dict(requests=n_vm, disagreements=len(bad_vm),
+                                                  sends_requests=sum(1 for l, _ in vm_pairs if l.startswith("sends")),
+                                                  feed_requests=sum(1 for l, _ in vm_pairs if l.startswith("feed")))
+        if bad_vm:
+            line, got, ans = bad_vm[0]
+            report("extraction-vs-vm_compute", f"{len(bad_vm)} of {n_vm} sampled requests: extracted driver and vm_compute disagree "
+                   f"(first: request {line[:120]} driver {ans[:120]} coq {str(got)[:120]})", False,
+                   request=line[:4000], driver=ans[:4000], coq=got if got is None else got[:2000],
+                   broken="extraction / ocaml driver glue (ocaml/drv.ml, ocaml/drv_c05.ml)")
+            seen["extraction-vs-vm_compute"] = len(bad_vm)
     for v in viols:
         v["payload"]["occurrences"] = seen[v["key"]]
     cov.extra["exhaustive"] = True
     cov.extra["exhaustive_part"] = ("recv: every single and double read boundary (0..len, incl. empty reads) of %d streams <= 120 bytes; "
-                                    "every single-bit flip of %d small streams; send: payload lengths %s at counter 0"
+                                    "every single-bit flip of %d small streams; send: payload lengths %s at counter 0; "
+                                    "session: a 2-frame EVENT split at every byte with a request issued between its two reads"
                                     % (len(SMALL_SETS[:4] if tier == "quick" else SMALL_SETS), 2 if tier == "quick" else 4, SEND_LENS))
     cov.extra["domain"] = ("inbound frame sizes 0..65535 (mostly 1..1024); counters up to and across 2^64; "
                            "authentication failure = real ChaCha20-Poly1305 rejection (model: entry absent from the finite open table)")
     cov.extra["trusted_base_extra"] = [
+        "C05: session scripts: Link calls protocol.pause_writing()/resume_writing() as asyncio's transport would (writes are still "
+        "accepted while paused, as the real transport buffers them); cancellation = task.cancel() on the send_bytes task; the driver "
+        "command `sess` (ip_sess_step) is not covered by the vm_compute cross-check (it composes ip_send / ip_feed, which are)",
         "C05: asyncio fatal-error contract (data_received raises -> _fatal_error -> _force_close: no further reads, connection_lost) "
         "is emulated by harness/c05.py::Link, checked by reading CPython 3.12 asyncio/selector_events.py",
         "C05: plaintext handed to the HTTP layer is observed by replacing proto.current_response with a recorder (recv stream) and at "
